@@ -304,3 +304,29 @@ def krstrip_styled_rows(r0, c0, e_rows, aggressive, qx, qy, **kw):
     xml = t.serialize()
     t.rstrip(aggressive=aggressive)
     return (not (ok and t.serialize() == xml)), f"rstrip(aggressive={aggressive}): height {t.height} (XML {rlib.xml_table_height(t)}) expected {eh}; idempotent {t.serialize() == xml}"
+
+
+def ktrans_ragged(w0, w1, rep, qx, qy, **kw):
+    t = Table("t")
+    for val, width, r in ((1, w0, 1), (2, w1, rep)):
+        row = Row()
+        row.append_cell(Cell(val, repeated=width if width > 1 else None), clone=False)
+        if r > 1:
+            row.repeated = r
+        t.append_row(row, clone=False)
+
+    def orig(x, y):
+        if y == 0:
+            return 1 if x < w0 else None
+        if y <= rep:
+            return 2 if x < w1 else None
+        return None
+
+    try:
+        t.transpose()
+        a = t.get_value((qy, qx))
+        t.transpose()
+        b = t.get_value((qx, qy))
+    except Exception as e:  # noqa: BLE001
+        return True, f"transpose of a ragged table (row widths {w0}, {w1}) raised {e!r}"
+    return (a != orig(qx, qy) or b != orig(qx, qy)), f"({qx},{qy}) = {orig(qx, qy)!r}: after one transpose {a!r} at ({qy},{qx}), after two {b!r}"
